@@ -13,6 +13,9 @@ Sweep part (this file):
        P: Go accepted  =>  the published schemas accept the serialised envelope and its document,
        judged by the EXTRACTED validator (bin/oracle) and by python jsonschema over the same files.
        The two validators are also compared on documents Go rejected (as given).
+       Also: a sub-key at every enumerated key position of every document type (examples and rich documents), and
+       documents written WITHOUT $regime with the supplier under every country code a regime answers to (own and
+       alternative codes), through gobl.Parse and as a Go program assembles them (`c11 runapi`).
   (iii) the shipped patterns on generated strings: extracted matcher vs python re vs Go regexp."""
 import copy
 import glob
@@ -48,9 +51,10 @@ F_UNVALIDATED = "C11-field-not-validated"
 # ----------------------------------------------------------------------------------------------
 # running the three sides
 # ----------------------------------------------------------------------------------------------
-def go_run(docs):
-    """[json-able] -> [(accepted, output envelope or None, kind)]"""
-    lines = ["c11 run x" + json.dumps(d, ensure_ascii=False).encode("utf-8", "surrogatepass").hex() for d in docs]
+def go_run(docs, op="run"):
+    """[json-able] -> [(accepted, output envelope or None, kind)]; op: run (gobl.Parse of the JSON text) or runapi (the
+    document as a Go program assembles it, see harness/c11.go)"""
+    lines = ["c11 " + op + " x" + json.dumps(d, ensure_ascii=False).encode("utf-8", "surrogatepass").hex() for d in docs]
     res = []
     for o in run_go(lines):
         v = parse_wire(o)
@@ -350,6 +354,129 @@ def systematic(rng, bases, quick, rich_rot=0):
     return items
 
 
+KEYLIKE_LIT = re.compile(r'"([a-z][a-z0-9]*(?:-[a-z0-9]+)*)"')
+_LITS = []
+
+
+def go_key_literals():
+    """key-like string literals (no `+`) of the non-test Go source of the repository under test: the words an
+    add-on or regime could accept as a sub-key"""
+    if not _LITS:
+        found = set()
+        for f in glob.glob(os.path.join(REPO, "**", "*.go"), recursive=True):
+            if f.endswith("_test.go") or "/examples/" in f:
+                continue
+            try:
+                src = open(f, encoding="utf-8", errors="replace").read()
+            except OSError:
+                continue
+            for m in KEYLIKE_LIT.finditer(src):
+                if 3 <= len(m.group(1)) <= 24:
+                    found.add(m.group(1))
+        _LITS.extend(sorted(found))
+    return _LITS
+
+
+def schema_of(name, b):
+    s = (doc_of(b) or b).get("$schema") if isinstance(b, dict) else None
+    return s if isinstance(s, str) else name
+
+
+def without_uuids(x):
+    """a document without the identifiers the library makes up afresh on every run"""
+    if isinstance(x, dict):
+        return {k: without_uuids(v) for k, v in x.items() if k != "uuid"}
+    if isinstance(x, list):
+        return [without_uuids(v) for v in x]
+    return x
+
+
+def enum_subkeys(rng, docs, quick, rot=0):
+    """Every member position (array indices generalised) of every document TYPE that holds a key and whose values the
+    published schemas enumerate, with the present value extended by a sub-key (`note` -> `note+zz`): the key rules of the
+    library (cbc.HasValidKeyIn and friends) look at the first component only, so wherever the library takes sub-keys the
+    schema must leave the member open. A made-up sub-key or a key-like word of the Go source per position; the document's
+    own `type` gets both and more words, once per add-on set (add-ons refine exactly these keys). Positions are counted
+    per document type, so that no type is starved by the many invoices; quick tier: of the positions that only the rich
+    documents have, a third per run (rotating with the seed), everything else on every run.  -> [(label, document)]"""
+    items, seen = [], set()
+    lits = go_key_literals()
+    for name, b in docs:
+        sid = schema_of(name, b)
+        addons = tuple((doc_of(b) or b).get("$addons") or []) if isinstance(b, dict) else ()
+        for path, parent, key, val in leaves(b):
+            nm = key if isinstance(key, str) else (path[-2] if len(path) > 1 and isinstance(path[-2], str) else "")
+            if nm not in ENUMS or not isinstance(val, str) or not KEY_RE.match(val) or "+" in val:
+                continue
+            gp = tuple("*" if isinstance(x, int) else x for x in path)
+            top = gp in (("type",), ("doc", "type"))
+            k = (sid, gp, addons if top else None)
+            if k in seen:
+                continue
+            seen.add(k)
+            if quick and not top and name.startswith("rich:") and (sum(map(ord, "/".join(gp))) + rot) % 3 != 0:
+                continue            # positions only the (large) rich documents have: a rotating third per quick run
+            made_up = rng.choice(["zz", "wallet", "x1"])
+            if top:
+                subs = [made_up] + rng.sample(lits, min(len(lits), 5 if quick else 40))
+            else:
+                subs = [made_up if rng.random() < 0.5 or not lits else rng.choice(lits)] if quick else [made_up] + rng.sample(lits, min(len(lits), 4))
+            for sk in subs:
+                m = copy.deepcopy(b)
+                pp = m
+                for x in path[:-1]:
+                    pp = pp[x]
+                pp[path[-1]] = val + "+" + sk
+                items.append(("subkey:%s:%s" % (name, json.dumps([("enum-subkey+", path, val + "+" + sk)], default=str)[:300]), m))
+    return items
+
+
+def go_regimes():
+    """[(own code, [alternative codes])] of every regime registered in the repository under test"""
+    v = parse_wire(run_go(["c11 regimes"])[0])
+    return [(r[0].decode(), [x.decode() for x in r[1:]]) for r in v[0]]
+
+
+def minimal_documents():
+    """the four document kinds as a user first writes them: nothing the calculation derives ($regime, currency, type,
+    dates, totals) is present"""
+    sup = {"name": "Supplier Ltd", "tax_id": {"country": "ES"}}
+    cust = {"name": "Customer"}
+    line = {"quantity": "3", "item": {"name": "Crate", "price": "10.00"}}
+    return [
+        ("minimal:bill/invoice", {"$schema": GOBL + "bill/invoice", "code": "INV-1", "supplier": sup, "customer": cust,
+                                  "lines": [dict(line, taxes=[{"cat": "VAT", "rate": "standard"}])]}),
+        ("minimal:bill/invoice-untaxed", {"$schema": GOBL + "bill/invoice", "code": "INV-1", "supplier": sup, "customer": cust, "lines": [line]}),
+        ("minimal:bill/order", {"$schema": GOBL + "bill/order", "code": "ORD-1", "supplier": sup, "customer": cust, "lines": [line]}),
+        ("minimal:bill/delivery", {"$schema": GOBL + "bill/delivery", "code": "DLV-1", "supplier": sup, "customer": cust, "lines": [line]}),
+        ("minimal:bill/payment", {"$schema": GOBL + "bill/payment", "code": "PAY-1", "issue_date": "2024-06-13", "supplier": sup, "customer": cust,
+                                  "method": {"key": "credit-transfer"}, "lines": [{"document": {"code": "INV-1"}, "credit": "10.00"}]}),
+    ]
+
+
+def derived_regime(rng, regs, docs, quick):
+    """Documents written WITHOUT `$regime` (the calculation derives it from the supplier's tax country), the supplier
+    placed in every country code a regime is registered under. Every document: every ALTERNATIVE code, the code of its
+    own regime and one country without a regime; the minimal documents (and every document in the thorough tier): every
+    regime's own code as well, the others three of them drawn from the seed.  -> [(label, document)] (bare documents)"""
+    items = []
+    own = [o for o, _ in regs]
+    alts = [a for _, al in regs for a in al]
+    for name, d in docs:
+        if not isinstance(d, dict) or not isinstance(d.get("supplier"), dict):
+            continue
+        tid = d["supplier"].get("tax_id") if isinstance(d["supplier"].get("tax_id"), dict) else {}
+        codes = alts + ["JP"] + (own if (not quick or name.startswith("minimal:")) else
+                                 sorted({c for c in (tid.get("country"), d.get("$regime")) if c in own} | set(rng.sample(own, min(3, len(own))))))
+        for code in codes:
+            m = copy.deepcopy(d)
+            m.pop("$regime", None)
+            # the tax code belongs to the original country: kept only there
+            m["supplier"]["tax_id"] = dict(tid, country=code) if tid.get("country") == code else {"country": code}
+            items.append(("derived-regime:%s:%s" % (name, json.dumps([("supplier-country", ["supplier", "tax_id", "country"], code), ("drop", ["$regime"], None)])), m))
+    return items
+
+
 def leaves(j, path=()):
     """all (path, parent, key, value) positions of a JSON value"""
     if isinstance(j, dict):
@@ -591,10 +718,10 @@ def shrink(doc, still_fails, budget=80):
     return cur
 
 
-def fails_P(c, doc):
+def fails_P(c, doc, op="run"):
     """Go accepts doc and a published schema rejects its output (model and python agree) with at least one
     error that is not an instance of a recorded finding. -> (bool, detail)"""
-    acc, out, kind = go_run([doc])[0]
+    acc, out, kind = go_run([doc], op)[0]
     if not acc:
         return False, None
     tg = targets(out)
@@ -663,10 +790,11 @@ def check_schema_files(c):
     return files
 
 
-def judge(c, stream, items, state, pre=None, doc_only=False):
+def judge(c, stream, items, state, pre=None, doc_only=False, op="run"):
     """items: [(label, input document)]. Runs Go (or takes its results from pre), validates outputs (accepted) or inputs
-    (rejected). doc_only: the envelope around the document is not validated again (its schema says nothing about the document)."""
-    res = pre if pre is not None else go_run([d for _, d in items])
+    (rejected). doc_only: the envelope around the document is not validated again (its schema says nothing about the document).
+    op: the entry point the documents went / go through (go_run)."""
+    res = pre if pre is not None else go_run([d for _, d in items], op)
     pairs, meta = [], []
     for (label, d), (acc, out, kind) in zip(items, res):
         state["go"][kind] = state["go"].get(kind, 0) + 1
@@ -763,14 +891,14 @@ def judge(c, stream, items, state, pre=None, doc_only=False):
             state["reported"] += 1
             continue
         state["reported"] += 1
-        f0, det0 = fails_P(c, d)
-        small = shrink(d, lambda x: fails_P(c, x)[0]) if f0 else d
-        f, det = fails_P(c, small)
+        f0, det0 = fails_P(c, d, op)
+        small = shrink(d, lambda x: fails_P(c, x, op)[0]) if f0 else d
+        f, det = fails_P(c, small, op)
         if not f:
             small, det = d, {"schema": sid, "output": out, "model": m, "python": dict(p, errors=new[:6])}
         c.report("the library accepted a document that its published schema %s rejects: %s" % (det["schema"], [e["msg"] for e in det["python"].get("errors", [])[:2]]),
                  {"document": small, "schema": det["schema"], "go": "accepted", "serialised_output": det["output"], "model_validator": det["model"],
-                  "python_jsonschema": det["python"], "label": label,
+                  "python_jsonschema": det["python"], "label": label, "entry_point": op,
                   "clause": "every envelope or document that calculates and validates successfully serialises to JSON that the published schema for its type accepts"})
 
 
@@ -1004,6 +1132,41 @@ def run(c):
     for i in range(0, len(acc_items), 10000):
         judge(c, "systematic", acc_items[i:i + 10000], state, pre=acc_pre[i:i + 10000], doc_only=True)
     c.cov.setdefault("phase_s", {})["systematic-judged"] = round(time.time() - T0, 1)
+    # sub-keys at every enumerated member position of every document TYPE (examples and the rich document of every
+    # registered type), and documents written without $regime under every country code a regime answers to, through the
+    # JSON entry point and as a Go program assembles them. Go first; what the library accepts gets the schema's verdict.
+    typed = [(n, doc_of(env) if doc_of(env) is not None else env) for n, env in ex] + list(ritems)
+    regs = go_regimes()
+    written = minimal_documents() + [(n, d) for n, d in typed if isinstance(d, dict) and isinstance(d.get("supplier"), dict)
+                                     and (n.startswith("rich:") or not str(d.get("$schema")).endswith("bill/invoice"))]
+    one_inv = {}
+    for n, d in typed:              # and one example invoice per regime directory
+        if isinstance(d, dict) and str(d.get("$schema")).endswith("bill/invoice") and not n.startswith("rich:"):
+            one_inv.setdefault(n.split("/")[1] if "/" in n else n, (n, d))
+    written += sorted(one_inv.values())
+    c.cov["extra_streams"] = {"regimes": len(regs), "alternative_codes": sum(len(a) for _, a in regs), "documents_without_regime": len(written)}
+    drv = derived_regime(c.rng, regs, written, quick)
+    json_out = {}
+    for stream, op, its in (("subkeys", "run", enum_subkeys(c.rng, typed, quick, rot=c.seed)),
+                            ("derived-regime", "run", drv),
+                            ("derived-regime(go-api)", "runapi", drv)):
+        a_items, a_pre = [], []
+        same = 0
+        for (label, d), (acc, out, kind) in zip(its, go_run([d for _, d in its], op)):
+            c.count(stream + "/go-" + ("accepted" if acc else "rejected"), 1, label)
+            if acc and op == "run":
+                json_out[label] = without_uuids(doc_of(out))
+            if acc and op == "runapi" and label in json_out and json_out[label] == without_uuids(doc_of(out)):
+                same += 1           # the same document as through the JSON entry point: judged there
+                continue
+            if acc:
+                a_items.append((label, d))
+                a_pre.append((acc, out, kind))
+        c.cov["extra_streams"][stream] = {"documents": len(its), "accepted_by_go": len(a_items) + same, "same_output_as_json_entry_point(judged_there)": same}
+        if stream.startswith("derived-regime") and len(a_items) + same < len(regs):
+            c.report("the %s stream did not reach its cases (%d of %d documents accepted)" % (stream, len(a_items) + same, len(its)), {"machinery": "generator"}, no_input=True)
+        judge(c, stream, a_items, state, pre=a_pre, doc_only=True, op=op)
+        c.cov.setdefault("phase_s", {})[stream] = round(time.time() - T0, 1)
     c.sample({"stream": "mutations", "change": muts[0][0], "document_schema": muts[0][1].get("$schema")}, limit=4)
     c.cov["mutation_kinds"] = stats
 
@@ -1022,7 +1185,12 @@ def run(c):
                      "text, numbers, map entries, dropped members, duplicated elements, retyped values; 70% of replaced values valid), and SYSTEMATIC single changes: for every distinct member position of the examples every rejected-class value, the length boundaries 32/33/64/65/255/256 and every value the schemas enumerate for a member of that name (also behind $ref) - Go first, the accepted ones judged. Every document goes through Go; "
                      "Go-accepted: serialised envelope and document validated against their published schemas by the extracted validator and python jsonschema (P); "
                      "Go-rejected: the given document validated by both (validators compared on invalid documents). distinct = distinct (schema, instance) pairs; "
-                     "patterns: each shipped pattern on generated strings, extracted matcher = python re = Go regexp")
+                     "patterns: each shipped pattern on generated strings, extracted matcher = python re = Go regexp; "
+                     "subkeys: every key-valued member position (indices generalised, per document type; the document's own type per add-on set) that the schemas enumerate, of the examples and of the rich document "
+                     "of every registered type, with a sub-key appended (made up / key-like words of the Go source) - Go first, accepted ones judged; derived-regime: minimal invoice / order / delivery / payment, "
+                     "the non-invoice examples, the rich documents with a supplier and one example invoice per regime directory, written without $regime, supplier tax country = every alternative code, the own code, "
+                     "a country without regime and (minimal documents: all, others: three) regimes' own codes, through gobl.Parse and through `c11 runapi` (struct handed to gobl.Envelop without the UnmarshalJSON side effects; "
+                     "outputs equal to the JSON entry point's are judged once)")
     acc = sum(v for k, v in state["verdicts"].items() if k[0])
     if acc < 50 or not any(k[1] == "invalid" for k in state["verdicts"]):
         c.report("the sweep did not reach its interesting cases (accepted=%d, verdict classes=%s)" % (acc, list(state["verdicts"])), {"machinery": "generator"}, no_input=True)
@@ -1042,8 +1210,8 @@ def replay(path):
         print("oracle build failed:", out[-500:])
         return 1
     if "document" in r:
-        acc, out, kind = go_run([r["document"]])[0]
-        print("implementation:", "accepted" if acc else "rejected (%s)" % kind)
+        acc, out, kind = go_run([r["document"]], r.get("entry_point", "run"))[0]
+        print("implementation (c11 %s):" % r.get("entry_point", "run"), "accepted" if acc else "rejected (%s)" % kind)
         print("document:", json.dumps(r["document"])[:1500])
         if acc:
             tg = targets(out)
